@@ -34,7 +34,32 @@ func (s *State) evalUnquoteCalls(quoted ast.Node) ast.Node {
 		if converted == nil {
 			return node // unsupported value type (already logged): leave the unquote() call in the tree, not a nil node.
 		}
-		return converted
+		return cloneAST(converted)
+	})
+}
+
+// cloneAST copies a tree: every place an argument is substituted gets nodes of its own (a map literal is keyed by
+// its key nodes: the same node inserted twice, {unquote(a):1, unquote(a):2}, was one pair).
+func cloneAST(n ast.Node) ast.Node {
+	return ast.ModifyNoOk(n, func(in ast.Node) ast.Node {
+		switch v := in.(type) { // Modify rebuilds the composite nodes, the leaves are copied here.
+		case *ast.Identifier:
+			c := *v
+			return &c
+		case *ast.IntegerLiteral:
+			c := *v
+			return &c
+		case *ast.FloatLiteral:
+			c := *v
+			return &c
+		case *ast.StringLiteral:
+			c := *v
+			return &c
+		case *ast.Boolean:
+			c := *v
+			return &c
+		}
+		return in
 	})
 }
 
